@@ -168,6 +168,7 @@ func cmdCheck(args []string) int {
 	only := fs.String("only", "", "only functions containing this substring (debug)")
 	keep := fs.Bool("keep", false, "keep query files")
 	verbose := fs.Bool("v", false, "verbose")
+	noDeps := fs.Bool("no-deps", false, "do not verify the contracts assumed at call sites (debug)")
 	noEvidence := fs.Bool("no-evidence", false, "do not write the evidence file (selftest runs)")
 	fs.Parse(args)
 	noEvidenceFlag = *noEvidence
@@ -241,6 +242,45 @@ func cmdCheck(args []string) int {
 	var unsup []string
 	returnsOf := map[string]int{}
 	var skippedThorough []string
+	ex.usedSpecs = map[*FnSpec]bool{}
+	mainPass := map[*FnSpec]bool{}
+	verifyOne := func(sp *FnSpec, mode string) {
+		ex.axioms = nil
+		n0 := len(ex.obls)
+		t1 := time.Now()
+		err := ex.VerifyFunction(sp, mode)
+		name := fnName(sp.Fn)
+		if mode == "*" && mainPass[sp] {
+			// second visit of a function already verified for this property's own clauses: keep only the new clauses
+			have := map[string]bool{}
+			for _, o := range ex.obls[:n0] {
+				if o.Fn == name {
+					have[o.Name] = true
+				}
+			}
+			kept := ex.obls[:n0:n0]
+			for _, o := range ex.obls[n0:] {
+				if !have[o.Name] {
+					kept = append(kept, o)
+				}
+			}
+			ex.obls = kept
+		}
+		if *verbose {
+			fmt.Fprintf(os.Stderr, "vcgen %-60s paths=%d obls=%d %.2fs %s\n", name, ex.paths, len(ex.obls)-n0, time.Since(t1).Seconds(), map[bool]string{true: "(dependency)"}[mode == "*"])
+		}
+		if err != nil {
+			// fail closed: the function left the supported subset
+			ex.obls = ex.obls[:n0]
+			ex.obls = append(ex.obls, &Obligation{Name: name + "#subset", Kind: "subset", Fn: name, Labels: []string{*prop}, PC: True, Goal: False, Pos: err.Error()})
+			unsup = append(unsup, name+": "+err.Error())
+		}
+		axioms[name] = append(axioms[name], ex.axioms...)
+		if !mainPass[sp] || mode != "*" {
+			fnsUnder = append(fnsUnder, name)
+		}
+		returnsOf[name] = ex.returns
+	}
 	for _, sp := range specs.list {
 		if !sp.props()[*prop] {
 			continue
@@ -256,23 +296,35 @@ func cmdCheck(args []string) int {
 			skippedThorough = append(skippedThorough, fnName(sp.Fn))
 			continue
 		}
-		ex.axioms = nil
-		n0 := len(ex.obls)
-		t1 := time.Now()
-		err := ex.VerifyFunction(sp, *prop)
-		name := fnName(sp.Fn)
-		if *verbose {
-			fmt.Fprintf(os.Stderr, "vcgen %-60s paths=%d obls=%d %.2fs\n", name, ex.paths, len(ex.obls)-n0, time.Since(t1).Seconds())
+		verifyOne(sp, *prop)
+		mainPass[sp] = true
+	}
+	// dependency closure: every contract assumed at a call site of a function verified above is itself verified here,
+	// with all of its clauses (whatever property they are labelled with), transitively
+	var depFns []string
+	if *only == "" && !*noDeps {
+		done := map[*FnSpec]bool{}
+		for {
+			var next *FnSpec
+			for _, sp := range specs.list { // specs.list order keeps the run deterministic
+				if ex.usedSpecs[sp] && !done[sp] {
+					next = sp
+					break
+				}
+			}
+			if next == nil {
+				break
+			}
+			done[next] = true
+			if next.Trusted || next.Fn == nil || (next.Thorough && *tier != "thorough") {
+				continue
+			}
+			if mainPass[next] && next.onlyProp(*prop) {
+				continue // every clause already verified above
+			}
+			verifyOne(next, "*")
+			depFns = append(depFns, fnName(next.Fn))
 		}
-		if err != nil {
-			// fail closed: the function left the supported subset
-			ex.obls = ex.obls[:n0]
-			ex.obls = append(ex.obls, &Obligation{Name: name + "#subset", Kind: "subset", Fn: name, Labels: []string{*prop}, PC: True, Goal: False, Pos: err.Error()})
-			unsup = append(unsup, name+": "+err.Error())
-		}
-		axioms[name] = ex.axioms
-		fnsUnder = append(fnsUnder, name)
-		returnsOf[name] = ex.returns
 	}
 	if len(fnsUnder) == 0 {
 		return failClosed(*verif, *prop, *tier, seed, "target", "no function under contract for this property", t0)
@@ -302,7 +354,15 @@ func cmdCheck(args []string) int {
 	perBackend := map[string]int{}
 	var solverS float64
 	var samples []map[string]interface{}
-	var knownHit []string
+	isKnownElsewhere := func(name string) *KnownFinding {
+		for i := range known {
+			if known[i].Property != *prop && known[i].Obligation == name && known[i].Status == "known" {
+				return &known[i]
+			}
+		}
+		return nil
+	}
+	var knownHit, depKnown []string
 	var lines []string
 	confirmed := 0
 	for _, r := range results {
@@ -349,6 +409,13 @@ func cmdCheck(args []string) int {
 				total--
 				continue
 			}
+			if kf := isKnownElsewhere(g.Name); kf != nil {
+				// a clause of another property's contract that this run only reached as a dependency; it is that property's
+				// recorded finding, not a violation of this one
+				depKnown = append(depKnown, fmt.Sprintf("dependency clause %s is the recorded known finding of %s (%s); call sites in this run assumed it", g.Name, kf.Property, kf.What))
+				total--
+				continue
+			}
 			violations++
 			path, reproduced := replayResult(*verif, *repo, *prop, r, ex)
 			suffix := ""
@@ -384,6 +451,9 @@ func cmdCheck(args []string) int {
 	}
 	for _, l := range knownHit {
 		fmt.Println(l)
+	}
+	for _, l := range depKnown {
+		fmt.Println("NOTE: " + l)
 	}
 	for _, l := range lines {
 		fmt.Println(l)
@@ -426,6 +496,8 @@ func cmdCheck(args []string) int {
 			"bounded":                    bounded,
 			"unverified_functions":       unsup,
 			"known_findings":             knownHit,
+			"dependency_functions":       depFns,
+			"dependency_known_findings":  depKnown,
 			"confirmed_by_second_solver": confirmed,
 			"samples":                    samples,
 			"paths_per_function":         returnsOf,
